@@ -153,7 +153,7 @@ def agg_in_fn(f, suffix):
 def inherit(ctx, vb):
     P = ctx.prog
     where = loc(vb.span)
-    gs = guards_of(vb)
+    gs = guards_of(vb) + lifted_guards(vb)
     # G11 prefix comparison
     glen = [g for g in gs if g.kind == 'reject' and cmp_parts(g.pred) and len(find_calls(g.pred, '::len')) == 2]
     okl = False
@@ -170,7 +170,43 @@ def inherit(ctx, vb):
     gne += [g for g in gs if g.kind == 'reject' and g.pred[0] == 'un' and g.pred[2][0] == 'call' and re.search(r'::eq$', g.pred[2][1])]
     okn = False
     det = ''
-    if len(gne) == 1:
+    # search form: `zip(base, derived)[.enumerate()].find(|..| b != d)` is Some ⇒ Err (equivalently position / any)
+    gsearch = []
+    for g in gs:
+        if g.kind != 'reject':
+            continue
+        X = None
+        if g.pred[0] == 'is_some':
+            X = strip(expand(g.fn, g.pred[1])) if not getattr(g, 'lifted_from', None) else strip(g.pred[1])
+            if not (is_call(X, 'Iterator::find') or is_call(X, 'Iterator::position')):
+                X = None
+        elif is_call(g.pred, 'Iterator::any'):
+            X = g.pred
+        if X is not None and len(X[2]) == 2:
+            gsearch.append((g, X))
+    if not gne and len(gsearch) == 1:
+        g, X = gsearch[0]
+        it = strip(X[2][0])
+        if it[0] == 'var' and not getattr(g, 'lifted_from', None):
+            it = strip(expand(g.fn, it))
+        while is_call(it, 'into_iter') or is_call(it, 'Iterator::enumerate'):
+            it = strip(it[2][0])
+        zipped = is_call(it, 'Iterator::zip') and len(it[2]) == 2
+        sides = False
+        if zipped:
+            a, b = it[2]
+            unad = lambda z: all(re.search(r'(slice::<impl \[T\]>::iter|into_iter|deref|Vec::<T, A>::iter|as_slice)$', c_[1]) for c_ in calls_in(z) if not c_[1].endswith('region_name_and_vftable') and c_[3] != TRY_BRANCH and 'branch' not in c_[1])
+            base_a, base_b = bool(find_calls(a, 'region_name_and_vftable')), bool(find_calls(b, 'region_name_and_vftable'))
+            sides = base_a != base_b
+        pf = predicate_fn(P, X[2][1])
+        okty = False
+        if pf is not None:
+            ex_ = [strip(x_['expr']) for x_ in pf.exits()]
+            okty = len(ex_) == 1 and ex_[0][0] == 'call' and bool(re.search(r'::ne$', ex_[0][1])) and FUNCTION in ex_[0][4] and not pf.switches()
+        okn = bool(zipped and sides and okty) and (covers_all_paths(vb, g) if not getattr(g, 'lifted_from', None) else True)
+        det = 'search form %s over %s' % (short(X[1]), show(it)[:120])
+        gne = [g]
+    elif len(gne) == 1:
         g = gne[0]
         call = g.pred if g.pred[0] == 'call' else g.pred[2]
         full = call[4]
@@ -196,14 +232,21 @@ def inherit(ctx, vb):
     for x in vb.exits():
         if x['kind'] != 'ok':
             continue
-        t = x['expr'][2][0][1]
-        if t[0] != 'tuple' or len(t[1]) != 2:
-            continue
-        outs.append((x, t[1][0], t[1][1]))
+        # values merged from several arms (a match that yields the two components) are split into one outcome per arm
+        for val in split_values(vb, x['expr']):
+            t = val[2][0][1]
+            if t[0] != 'tuple' or len(t[1]) != 2:
+                outs.append((x, ('agg', '?', []), t))
+                continue
+            if not any(o[1] == t[1][0] and o[2] == t[1][1] for o in outs):
+                outs.append((x, t[1][0], t[1][1]))
     kinds = {}
     for x, v, r in outs:
-        if v[1].endswith('Option::None'):
+        if v[0] == 'agg' and v[1].endswith('Option::None'):
             kinds.setdefault('none', []).append((x, v, r))
+            continue
+        if not (v[0] == 'agg' and v[1].endswith('Option::Some') and v[2] and v[2][0][1][0] == 'agg' and v[2][0][1][1].endswith('TypeVftable')):
+            kinds.setdefault('undecided', []).append((x, v, r))
             continue
         tv = dict(v[2][0][1][2])
         bf = tv['base_field']
@@ -211,7 +254,7 @@ def inherit(ctx, vb):
         own_block = any(x_[0] == 'arg' for x_ in walk(own) if isinstance(x_, tuple)) and not find_calls(own, 'region_name_and_vftable')
         k = ('own' if own_block else 'inherited') + ('+base' if bf[1].endswith('Option::Some') else '+nobase')
         kinds.setdefault(k, []).append((x, tv, r))
-    ok_shape = all(len(kinds.get(k, [])) == 1 for k in ('own+base', 'own+nobase', 'inherited+base')) and 'inherited+nobase' not in kinds
+    ok_shape = all(len(kinds.get(k, [])) == 1 for k in ('own+base', 'own+nobase', 'inherited+base')) and 'inherited+nobase' not in kinds and 'undecided' not in kinds
     ctx.ob(['C06'], 'R-SLP', 'VB|outcomes', ok_shape, 'vftable::build has exactly the outcomes own+base, own+no-base, inherited+base and none: %s' % {k: len(v) for k, v in kinds.items()}, where)
     if ok_shape:
         x, tv, r = kinds['own+base'][0]
@@ -270,6 +313,10 @@ def vtype(ctx):
         if isinstance(x, tuple) and x[0] == 'agg' and x[1].endswith('type_definition::TypeDefinition'):
             td = dict(x[2])
     regs = strip(td['regions']) if td else None
+    regs_var = regs
+    lb = loop_built(bt, regs[1]) if regs and regs[0] == 'var' else None
+    if lb and not lb['filtered']:
+        regs = seq_chain(bt, regs)      # a push loop over the slice is the same sequence as iter().map().collect()
     okr = False
     clos = None
     if regs and is_call(regs, 'Iterator::collect') and is_call(regs[2][0], 'Iterator::map') and is_call(regs[2][0][2][0], 'slice::<impl [T]>::iter'):
@@ -277,6 +324,11 @@ def vtype(ctx):
         clos = regs[2][0][2][1]
         okr = src[0] == 'arg' and bt.local_ty(src[1]) == '&[%s]' % FUNCTION
     f2r = None
+    if clos and clos[0] == 'loopbody':
+        tg = [c_ for c_ in calls_in(clos[1]) if c_[1] in P.fns]
+        if len(tg) == 1:
+            f2r = P.fns[tg[0][1]]
+            okr = okr and any(isinstance(x, tuple) and x[0] == 'payload' and x[2] == 'Some' and is_call(strip(x[1]), 'Iterator::next') for a_ in tg[0][2] for x in walk(a_))
     if clos and clos[0] == 'closure' and clos[1] in P.fns:
         cf = P.fns[clos[1]]
         tg = [c for c in cf.calls(lambda r: r['path'] in P.fns)]
@@ -286,7 +338,20 @@ def vtype(ctx):
             okr = okr and any(x[0] == 'arg' for x in walk(ce) if isinstance(x, tuple))
     ctx.ob(['C04', 'C14'], 'R-ITER', 'VBT|one-region-per-function', okr and f2r is not None,
            'the vftable struct has one region per function of the list, in list order (map over the unadapted slice): %s' % (show(regs)[:160] if regs else None), where)
-    oks = is_call(isr['alignment'], 'pointer_size') and is_call(isr['size'], 'Iterator::sum') and any(strip(x) == regs for x in walk(isr['size']))
+    oks = is_call(isr['alignment'], 'pointer_size') and is_call(isr['size'], 'Iterator::sum') and any(strip(x) in (regs, regs_var) for x in walk(isr['size']))
+    sz = strip(isr['size'])
+    if not oks and lb and sz[0] == 'var' and is_call(isr['alignment'], 'pointer_size'):
+        # running total kept in the loop that builds the regions: starts at 0 and grows by the size of the region pushed in the same trip
+        defs_ = bt.defs().get(sz[1], [])
+        exprs_ = [(d_[0], bt.expr_of_def(d_)) for d_ in defs_]
+        zero = [b_ for b_, e_ in exprs_ if is_int(e_, 0)]
+        adds = [(b_, e_) for b_, e_ in exprs_ if e_[0] == 'bin' and e_[1] == 'Add' and strip(e_[2]) == sz]
+        if len(defs_) == 2 and len(zero) == 1 and len(adds) == 1:
+            b_, e_ = adds[0]
+            h_, body_, _l = lb['loop']
+            inc = unwrap_all(e_[3])
+            same_region = is_call(inc, 'Region::size') and strip(inc[2][0]) == strip(lb['elem'])
+            oks = b_ in body_ and not cycle_without(bt, body_, h_, {b_}) and same_region and not bt.dominates(h_, zero[0])
     ctx.ob(['C02', 'C04'], 'R-SLP', 'VBT|size-and-alignment', bool(oks), 'vftable struct: alignment = pointer size, size = sum of the sizes of exactly those regions', where)
     flags = td and all(td[k] == ('int', 0, 'bool') for k in ('copyable', 'cloneable', 'defaultable', 'packed')) and td['vftable'][1].endswith('Option::None') and td['singleton'][1].endswith('Option::None')
     fs = fmt_str(idf['path'])
@@ -484,17 +549,25 @@ def hierarchy(ctx):
     where = loc(f.span)
     Ls = f.loops()
     main = None
+    def base_filter_only(src_):
+        """every filter adapter in the loop source keeps exactly the regions whose is_base flag is set"""
+        for c_ in find_calls(src_, 'Iterator::filter'):
+            pf = predicate_fn(P, c_[2][1]) if len(c_[2]) > 1 else None
+            ex_ = [strip(x['expr']) for x in pf.exits()] if pf is not None else []
+            if not (len(ex_) == 1 and ex_[0][0] == 'field' and ex_[0][2] == 'is_base' and strip(ex_[0][1])[0] == 'arg'):
+                return False
+        return True
     for L in Ls:
         sty, src = loop_source(f, L)
-        if sty == "std::slice::Iter<'_, semantic::type_definition::Region>":
-            main = (L, src)
+        if sty and re.match(r"^(std::iter::Filter<)?std::slice::Iter<'_, semantic::type_definition::Region>(, \{closure@[^}]*\}>)?$", sty):
+            main = (L, expand(f, src))
     if not main:
         ctx.fail_closed(['C07'], 'R-ITER', 'DFS|loop', 'no loop over the regions of the type', where)
         return
     L, src = main
     h, body, _ = L
     over_self = any(strip(x) == ('field', ('arg', 1, f.names.get(1, '_1')), 'regions') for x in walk(src)) and not any(
-        re.search(r'Iterator::(rev|skip|take|filter|step_by|chain)$', c_[3]) for c_ in calls_in(src))
+        re.search(r'Iterator::(rev|skip|take|step_by|chain|skip_while|take_while|filter_map)$', c_[3]) for c_ in calls_in(src)) and base_filter_only(src)
     pushes = [c for c in f.calls(lambda r: r['block'] in body and r['path'] and r['path'].endswith('Vec::<T, A>::push'))]
     recs = [c for c in f.calls(lambda r: r['block'] in body and r['path'] == f.id)]
     ext = [c for c in f.calls(lambda r: r['block'] in body and r['gpath'] and r['gpath'].endswith('Extend::extend'))]
